@@ -68,7 +68,7 @@ def run(tier):
                "for A in the joint expansion must be token-identical to the expansion of the input projected to A. distinct_nontrivial = distinct "
                "(struct|enum, family, sorted set of instruction kinds dropped by the projection).")
     g = xgen.G(common.rng_for("C06", tier))
-    n = 700 if tier == "quick" else 20000
+    n = 1500 if tier == "quick" else 20000
     joints = []
     profs = ["struct_basic", "struct_basic", "struct_children", "enum_basic", "enum_basic", "enum_prim", "struct_parents"]
     while len(joints) < n:
